@@ -409,6 +409,20 @@ var c02Templates = []sim.Template{
 		b, b2 := 0, 1
 		return []*sim.Action{act("login", b, v, "ok"), act("totp_validate", b, -9, "ok"), act("otp_add", b, -9, ""), act("otp_login", b2, v, "ok"), act("visit", b2, -9, "", "route", "/protected/plain"), act("totp_validate", b2, -9, "wrong"), act("totp_validate", b2, -9, "recovery")}
 	}},
+	{Name: "short-code", F: func(s *sim.Sim) []*sim.Action {
+		// the tail of the current code (1, 3, 5 digits) is not a code of the factor, whatever number of digits
+		// an authenticator may be configured for
+		if !s.Cfg.Has2FA("totp") || !s.Cfg.Has("auth") {
+			return nil
+		}
+		v := findAcct(s, func(u *world.User) bool { return u.TOTPSecretKey != "" && u.Confirmed })
+		if v < 0 {
+			return nil
+		}
+		b := s.R.Intn(len(s.Br))
+		return []*sim.Action{act("login", b, v, "ok"), act("totp_validate", b, -9, "cur_tail", "n", "1"), act("totp_validate", b, -9, "cur_tail", "n", "3"),
+			act("totp_validate", b, -9, "cur_tail", "n", "5"), act("visit", b, -9, "", "route", "/protected/bare")}
+	}},
 	{Name: "enrol-then-victim", F: func(s *sim.Sim) []*sim.Action {
 		// attacker enrols SMS on an own plain account (code goes to the attacker's phone), then the
 		// victim's password in a second browser session sharing nothing: must not help
